@@ -74,6 +74,12 @@ CHECKS = {
         design="§7 C15",
         note="regex matching / UTF-8 validity are arbitrary functions in the theorems; executed cases take the regex answers from the regex crate evaluated independently by the harness.",
         technique="Coq theorems (decision function = specification, by induction over the claim/schema lists) + differential correspondence"),
+    "C03": dict(
+        text="Theorems: per-statement completeness for every key size, reveal/hide partition, generator, value, randomness and challenge — BBS and PS proofs of knowledge (the verifier's recomputed commitment equals the prover's, pairing equation, response count), the commitment sub-protocol, and the index->slot alignment that makes every predicate verifier read the honest response of the referenced claim; the verifier model composes them by a fold over the schema. Revocation / membership / range / verifiable-encryption sub-protocols are not modelled in Coq. "
+             "Correspondence: (a) honest external prover vs Coq verifier model vs Presentation::verify (56 quick / 280 thorough schemas); (b) Presentation::create on generated well-formed schemas with every statement kind and 1..3 credentials -> verify, also after BARE, CBOR and JSON round trips (110 quick / 900 thorough).",
+        design="§7 C03",
+        note="Composition of the per-statement lemmas into one theorem about a Gallina `create` is not done; the honest prover of the implementation is tied to the model only through the verifier (its output is accepted by the real verifier, whose model is validated separately). bulletproofs, AES-GCM, hash-to-curve idealised. Known finding: JSON cannot decode presentations containing bulletproofs.",
+        technique="Coq theorems (per-statement completeness, slot alignment) + differential correspondence of honest provers (external and Presentation::create) against verifier model and implementation"),
 }
 
 PLANNED = {
